@@ -333,3 +333,41 @@ func VerifTableDump(tb *LTable) (array []LValue, keys []LValue, vals []LValue, d
 	}
 	return array, keys, vals, len(tb.dict), len(tb.strdict)
 }
+
+// ---------------------------------------------------------------------------------------------
+// C10: allocation-free comparison of a register range with a reference copy
+
+// VerifRegistersInto copies reg.array[lo:hi] (clamped) into buf (grown when needed).
+func VerifRegistersInto(L *LState, lo, hi int, buf []LValue) []LValue {
+	if lo < 0 {
+		lo = 0
+	}
+	if hi > len(L.reg.array) {
+		hi = len(L.reg.array)
+	}
+	buf = buf[:0]
+	if hi <= lo {
+		return buf
+	}
+	return append(buf, L.reg.array[lo:hi]...)
+}
+
+// VerifRegistersDiffer returns the first index i in [lo,hi) with reg.array[i] != ref[i-lo], or -1.
+// A range that no longer fits the array reports its first missing index.
+func VerifRegistersDiffer(L *LState, lo, hi int, ref []LValue) int {
+	if lo < 0 {
+		lo = 0
+	}
+	for i := lo; i < hi; i++ {
+		if i >= len(L.reg.array) || i-lo >= len(ref) {
+			return i
+		}
+		if L.reg.array[i] != ref[i-lo] {
+			return i
+		}
+	}
+	return -1
+}
+
+// VerifRegCap is len(reg.array).
+func VerifRegCap(L *LState) int { return len(L.reg.array) }
